@@ -90,6 +90,8 @@ def _deltas(kind, tier, seed):
         if tier == "thorough":
             n = 1 - 1e-12
             out.append([1.0, 0.0, 0.0, 0.0, n, 0.0])
+    # increments with translations of thousands of units (far-apart initial guesses produce them)
+    out.append(([2500.0, -1800.0, 900.0][: G.DIM[kind]] + [0.1, -0.2, 0.05])[:c] if kind == "SE3" else ([2500.0, -1800.0, 900.0][: G.DIM[kind]] + [0.3])[:c])
     if kind in ("R2", "R3"):
         out.append([1.0, -2.0, 3.0][:c])
     if kind == "SE3":
@@ -380,6 +382,29 @@ def _eval_inner(case, c):
         if kind == "SE2":
             c.phys("from_matrix(to_matrix(p))", kind, I.CLS[kind].from_matrix(pa.to_matrix()), a, sc)
             c.phys("from_matrix(M_ref)", kind, I.CLS[kind].from_matrix(np.array(G.to_mat(kind, a))), a, sc)
+        # an instance of a user subclass whose constructor has ANOTHER signature (a required time stamp) behaves like the base class
+        base = I.CLS[kind]
+
+        class Stamped(base):
+            def __new__(cls, stamp, *args):
+                obj = base.__new__(cls, *args) if cls is not base else base.__new__(base, *args)
+                obj = np.asarray(obj).view(cls)
+                obj.stamp = stamp
+                return obj
+
+            def __array_finalize__(self, obj):
+                self.stamp = getattr(obj, "stamp", None)
+
+        sp = np.asarray(pa).view(Stamped)
+        sp.stamp = 12.5
+        try:
+            c.phys("subclass instance: p^-1", kind, sp.inverse, G.inverse(kind, a), sc)
+            c.phys("subclass instance: p (+) p", kind, sp + sp, G.compose(kind, a, a), sc * 2)
+            c.phys("subclass instance: p (-) p", kind, sp - sp, e, sc * 2)
+            c.phys("subclass instance: copy", kind, sp.copy(), a, sc)
+            c.phys("subclass instance: p [+] 0", kind, sp + np.zeros(G.COMPACT[kind]), a, sc)
+        except Exception as ex:
+            c.msgs.append("an operation on an instance of a pose subclass with its own constructor signature raised %s: %s" % (type(ex).__name__, ex))
         # identity() hands out independent objects
         scratch = I.CLS[kind].identity()
         np.asarray(scratch)[: G.DIM[kind]] = 5.0
